@@ -3,6 +3,7 @@ mod common;
 mod crdt;
 mod hlc;
 mod node;
+mod rpc;
 
 use common::Args;
 
@@ -16,6 +17,9 @@ fn main() {
         "C09" => hlc::c09(&args),
         "C10" => hlc::c10(&args),
         "C11" => node::c11(&args),
+        "C12" => rpc::c12(&args),
+        "C12-family" => rpc::c12_family_child(&args),
+        "C13" => rpc::c13(&args),
         "C15" => node::c15(&args),
         "C16" => node::c16(&args),
         other => {
